@@ -159,7 +159,7 @@ def run(ctx):
             scheds = [[k, (list(range(1, len(data))) if c == 'ALL1' else sl.fixed(len(data), int(c[1:])) if isinstance(c, str) else c)]
                       for k, c in scheds]
             eval_case(ctx, {'spec': spec, 'expect': expect, 'schedules': scheds, 'wrapper': False})
-    n_images = ctx.pick(1400, 60000)
+    n_images = ctx.pick(1400, 20000)
     nsched = ctx.pick(6, 14)
     fmts = ['qcow2', 'vhd', 'vdi', 'iso', 'vmdk', 'vhdx', 'vhdx', 'luks', 'gpt', 'mbr', 'raw']
     for i in range(n_images):
@@ -177,7 +177,7 @@ def run(ctx):
             ctx.h('skipped (generator says not well-formed)', fmt)
             continue
         bounds = list(truth['bounds']) + [truth['lo'], truth['hi']]
-        scheds = [[k, c] for k, c in sl.schedules(crng, len(data), bounds, nsched, max_chunks=ctx.pick(2500, 40000))]
+        scheds = [[k, c] for k, c in sl.schedules(crng, len(data), bounds, nsched, max_chunks=ctx.pick(2500, 20000))]
         if fmt in ('vhdx', 'vmdk', 'iso', 'qcow2') and truth['lo'] < len(data) + 50:
             scheds.append(['window-lo-hi', sl.window_cuts(len(data), [truth['lo'], truth['hi']], 12, coarse=1 << 20)])
         case = {'spec': spec, 'expect': 'declared', 'schedules': scheds, 'wrapper': crng.random() < 0.3}
